@@ -117,6 +117,10 @@ def main(argv=None) -> int:
     args = ap.parse_args(argv)
     pid = args.pid
     t_start = time.time()
+    if args.tier == "thorough":
+        # deeper exploration: 4x solver budgets (set before the workers import pyvc.verify) ...
+        os.environ.setdefault("PYVC_Z3_TIMEOUT_MS", "80000")
+        os.environ.setdefault("PYVC_CVC5_TIMEOUT_S", "120")
     seed = int(os.environ.get("VERIF_SEED", "0") or 0)
     sys.path.insert(0, VERIF)
     if args.replay:
@@ -223,6 +227,23 @@ def main(argv=None) -> int:
             else:
                 violations.append(("structural", s))
 
+    # ... and, in the thorough tier, the guard of the guard: every canary mutation of this property (a scratch copy of /repo
+    # with one seeded defect) must be reported as a VIOLATION by this very check; a survivor means the check proves too much
+    canary_report = None
+    if args.tier == "thorough" and not os.environ.get("PYVC_NO_CANARIES"):
+        import subprocess
+
+        cp = subprocess.run([sys.executable, os.path.join(VERIF, "tools", "canaries.py"), pid], capture_output=True, text=True,
+                            env=dict(os.environ, PYVC_NO_CANARIES="1", VERIF_TIER="quick"))
+        lines = [l for l in cp.stdout.splitlines() if l.startswith("canary ")]
+        survivors = [l for l in lines if ": killed" not in l]
+        canary_report = {"run": len(lines), "killed": len(lines) - len(survivors), "survivors": survivors}
+        for l in survivors:
+            broken.append(f"canary not detected: {l[:300]}")
+        n_ob += len(lines)
+        n_ok += len(lines) - len(survivors)
+        by_backend.setdefault("canary", {"count": 0, "seconds": 0.0})["count"] += len(lines)
+
     # ---------------------------------------------------------------- report
     REPLAYS = os.environ.get("PYVC_REPLAY_DIR", os.path.join(VERIF, "replays"))
     EVID = os.environ.get("PYVC_EVIDENCE_DIR", os.path.join(VERIF, "evidence"))
@@ -266,7 +287,7 @@ def main(argv=None) -> int:
             "functions_under_contract": funcs, "by_backend": by_backend, "covers": covers,
             "not_verified": not_verified, "samples": samples, "known_findings_matched": [k["id"] for k, _ in known_hits],
             "failed_obligations": [o["name"] for _, o in violations], "undecided": undecided[:50],
-            "structural_obligations": len(struct), "covers_undecided": cover_unknown,
+            "structural_obligations": len(struct), "covers_undecided": cover_unknown, "canaries": canary_report,
         },
         "assumptions": sorted(f"{k}: {v}" for k, v in assumed.items()) + structural.assumptions(pid),
         "wall_s": round(wall, 2), "violations": len(violations),
